@@ -34,7 +34,7 @@ def write(mod, pid, tier, seed, col, wall, verdict, n_new, tree, shard_walls, in
         "wall_s": round(float(wall), 2),
         "violations": int(n_new),
     }
-    d = os.path.join(env.VERIF, "evidence")
+    d = os.path.join(env.OUT, "evidence")
     os.makedirs(d, exist_ok=True)
     p = os.path.join(d, "%s.json" % pid)
     tmp = p + ".tmp"
